@@ -301,7 +301,8 @@ func genPermCase(t *rapid.T) PermCase {
 		Method: pick(t, []string{"m", "n", "s", "other", ""}, "method"),
 		Stored: rapid.Bool().Draw(t, "stored"),
 	}
-	if e := pick(t, []string{"", "", "", "", "", "", "methods-null", "methods-missing", "contract-null", "contract-missing", "empty", "methods-null-second-spelling"}, "json_edit"); e != "" && !c.Stored && len(c.Perms) > 0 {
+	if e := pick(t, []string{"", "", "", "", "", "", "methods-null", "methods-missing", "contract-null", "contract-missing", "empty", "methods-null-second-spelling",
+		"second-spelling-methods-wild", "second-spelling-methods-list", "second-spelling-contract-wild", "second-spelling-permissions"}, "json_edit"); e != "" && !c.Stored && len(c.Perms) > 0 {
 		c.JSONEdit = e
 	}
 	for i := range c.Perms {
@@ -519,17 +520,26 @@ func checkHandWrittenPermission(c PermCase, raw []byte, hash util.Uint160, cm *m
 		delete(list[0], "contract")
 	case "empty":
 		list[0] = map[string]json.RawMessage{}
-	case "methods-null-second-spelling":
+	case "methods-null-second-spelling", "second-spelling-methods-wild", "second-spelling-methods-list", "second-spelling-contract-wild", "second-spelling-permissions":
 	default:
 		return nil
 	}
+	second := c.JSONEdit == "methods-null-second-spelling" || strings.HasPrefix(c.JSONEdit, "second-spelling")
 	edited, err := json.Marshal(list[:1])
 	if err != nil {
 		return err
 	}
-	if c.JSONEdit == "methods-null-second-spelling" {
-		// the member a second time, spelled "Methods" (Go's decoder matches member names case-insensitively), null
+	// a member a second time in another letter case (Go's decoder matches member names case-insensitively, the later
+	// one wins; the reference reads the exact names only)
+	switch c.JSONEdit {
+	case "methods-null-second-spelling":
 		edited = append(edited[:len(edited)-2], []byte(`,"Methods":null}]`)...)
+	case "second-spelling-methods-wild":
+		edited = append(edited[:len(edited)-2], []byte(`,"Methods":"*"}]`)...)
+	case "second-spelling-methods-list":
+		edited = append(edited[:len(edited)-2], []byte(`,"METHODS":["m","n","anything","`+c.Method+`"]}]`)...)
+	case "second-spelling-contract-wild":
+		edited = append(edited[:len(edited)-2], []byte(`,"Contract":"*"}]`)...)
 	}
 	mm := manifest.NewManifest("caller")
 	mm.ABI.Methods = []manifest.Method{{Name: "run", ReturnType: smartcontract.VoidType}}
@@ -549,6 +559,9 @@ func checkHandWrittenPermission(c PermCase, raw []byte, hash util.Uint160, cm *m
 	if err != nil {
 		return err
 	}
+	if c.JSONEdit == "second-spelling-permissions" {
+		full = append(full[:len(full)-1], []byte(`,"Permissions":[{"contract":"*","methods":"*"}]}`)...)
+	}
 	o.Label("hand-written-permission/" + c.JSONEdit)
 	o.Units(1)
 	back := new(manifest.Manifest)
@@ -562,13 +575,13 @@ func checkHandWrittenPermission(c PermCase, raw []byte, hash util.Uint160, cm *m
 		o.NonTrivial()
 		return nil
 	}
-	if c.JSONEdit == "methods-null-second-spelling" {
+	if second {
 		// the properly spelled member is there: a decoder may ignore the second spelling (the reference does) or refuse
 		// the manifest, but it must not allow more than the first permission says
 		for _, m := range []string{c.Method, "m", "n", "anything"} {
 			if got, want := back.CanCall(hash, cm, m), specPermAllows(c.Perms[0], calleeNames[c.Callee], c.Groups, m); got && !want {
-				return fmt.Errorf("manifest with the hand-written permission %s is accepted and CanCall(%s, groups %v, %q) = true although the permission %s does not allow it: the second, null-valued spelling of the member turned the method list into a wildcard",
-					edited, calleeNames[c.Callee], c.Groups, m, c.Perms[0])
+				return fmt.Errorf("manifest with the hand-written permission %s is accepted and CanCall(%s, groups %v, %q) = true although the permission %s does not allow it: the second spelling of a member (%s) replaced what the properly spelled one says",
+					edited, calleeNames[c.Callee], c.Groups, m, c.Perms[0], c.JSONEdit)
 			}
 		}
 		o.Label("hand-written-permission-second-spelling-harmless")
